@@ -264,9 +264,14 @@ class LoadEngine(object):
                 w.violate("R", "a load of nothing raised %s"
                           % type(val).__name__, kind="empty-load-failed")
         for xy_, ch in m.chips.items():
-            if ch.core_snapshot() != before[xy_]:
-                w.violate("X", "a load of nothing changed cores of chip %r"
-                          % (xy_,), kind="unrequested-core-changed")
+            for a_, b_ in zip(before[xy_], ch.core_snapshot()):
+                # (a core still starting up from an earlier load reaches its
+                # final state by itself)
+                if a_ != b_ and not (a_[0] == 4 and a_[1:] == b_[1:] and
+                                     b_[0] in (ST_WAIT, ST_RUN)):
+                    w.violate("X", "a load of nothing changed cores of chip "
+                              "%r" % (xy_,), kind="unrequested-core-changed")
+                    break
         w.ops[-1] += " -> %s" % ("ok" if status == "ok" else
                                  type(val).__name__)
         w.ops_completed += 1
